@@ -37,8 +37,9 @@ META = {
     "level_note": (
         "Trusted: Coq kernel + vm_compute; the hand-written model Model/C08_Cache.v (validated, not derived); the driver "
         "(history runner, reference forks, term emission).  The numerical code itself is not modelled (that is C05-C07). "
-        "PositionDelta/PosVel/Velocity classes share PosBase's cache code but are not exercised; `_dependent_objs` is "
-        "modelled as the inverse of `other`."),
+        "PosVel and PositionDelta objects are checked against their cache-free meaning only (section PVMachine, no plumbing "
+        "model / theorems of their own; they share PosBase's cache code); PosVelDelta/Velocity* are not exercised; "
+        "`_dependent_objs` is modelled as the inverse of `other`."),
 }
 
 THEOREMS = [
@@ -640,7 +641,7 @@ def gen_histories(ctx):
     light = bool(os.environ.get("VERIF_C08_LIGHT"))     # developer switch: a subset of the quick tier (mutant screening)
     full = int(os.environ.get("VERIF_C08_LIGHT")) if light else 3 if quick else 4
     only = os.environ.get("VERIF_C08_SCEN")             # developer switch: restrict to some alphabets
-    n_sample = 0 if light else 120 if quick else 1500          # per scenario, one length above the exhaustive bound
+    n_sample = 0 if light else 80 if quick else 1500          # per scenario, one length above the exhaustive bound
     for name, prelude, alpha in scenarios(not quick):
         if only and name not in only.split(","):
             continue
@@ -888,7 +889,7 @@ def gen_pv_histories(ctx):
             for combo in itertools.product(alpha, repeat=L):
                 hs.append((name, prelude + list(combo)))
         if not light:
-            for _ in range(250 if ctx.quick() else 3000):
+            for _ in range(100 if ctx.quick() else 3000):
                 hs.append((name, prelude + [ctx.rng.choice(alpha) for _ in range(ctx.rng.randrange(3, 9))]))
             for _ in range(10 if ctx.quick() else 150):
                 hs.append((name + "-long", prelude + [ctx.rng.choice(alpha) for _ in range(ctx.rng.randrange(9, 41))]))
@@ -1093,7 +1094,7 @@ def _run(ctx, srv):
     ]
     ctx.assume += [
         "the numerical functions are deterministic functions of the bytes, shape, dtype of their arguments (same code, same inputs -> bit-identical doubles)",
-        "PositionDelta / PosVel / Velocity* share PosBase's cache code and are not exercised separately",
+        "PosVelDelta / Velocity* objects share PosBase's cache code and are not exercised separately",
         "NaN / signed-zero keys (float equality differs from byte equality) are outside the domain",
     ]
     return ctx.finish(
